@@ -8,7 +8,8 @@ TEXT = ('Error discipline over the file-loading code: every Result carrying a sy
         'expect() calls are integer width conversions; 1 channel -> from_mono, 2 -> Frame::new, anything else -> '
         'Err(UnsupportedChannelConfiguration) with no access to a missing channel; the load loop leaves only by break on '
         'UnexpectedEof or by returning the error. Sample fidelity, frame counts, streaming == loading and Symphonia\'s own '
-        'behaviour on corrupt input are not decided.')
+        'behaviour on corrupt input are not decided.'
+        ' After every Decoder::seek the scheduler records the index the seek actually reached.')
 TECHNIQUE = 'MIR error-discipline (result-flow) and path rules'
 
 FNS = ['sound::static_sound::data::from_file::<impl sound::static_sound::data::StaticSoundData>::from_boxed_media_source',
@@ -17,6 +18,32 @@ FNS = ['sound::static_sound::data::from_file::<impl sound::static_sound::data::S
        '<sound::streaming::decoder::symphonia::SymphoniaDecoder as sound::streaming::decoder::Decoder>::seek',
        'sound::symphonia::load_frames_from_buffer_ref', 'sound::symphonia::load_frames_from_buffer']
 ERR_MARK = ('symphonia', 'FromFileError', 'std::io::Error')
+
+
+def bool_test_propagates(b, call_bb, nm):
+    """`r.is_err()` / `r.is_ok()` at call_bb is branched on and every return path on its failure side returns an Err."""
+    from ..paths import explore, bool_label
+    from ..rules import bool_edges
+    be = bool_edges(b, call_bb)
+    if be is None:
+        return False
+    fail_edge = be[0] if nm == 'is_err' else be[1]
+    seen = False
+    for p in explore(b):
+        if p.end != 'return' or call_bb not in p.blocks:
+            continue
+        i = p.blocks.index(call_bb)
+        if fail_edge not in p.blocks[i:]:
+            continue
+        # the failure side was taken on this path
+        nxt = [x for x in p.blocks[i + 1:]]
+        if fail_edge not in nxt:
+            continue
+        seen = True
+        r = str(p.ret)
+        if not ('::Err(' in r or 'Result::Err' in r or r.endswith('::Err') or 'from_residual' in r):
+            return False
+    return seen
 
 
 def consumers(b, local):
@@ -31,6 +58,11 @@ def consumers(b, local):
                     and s['lhs']['l'] not in aliases:
                 aliases.add(s['lhs']['l'])
                 changed = True
+    # shared references to the value (`r.is_err()` takes &r)
+    refs = set()
+    for bb, si, s in b.stmts():
+        if s['k'] == 'assign' and not s['lhs']['p'] and s['rv']['k'] == 'ref' and not s['rv']['pl']['p'] and s['rv']['pl']['l'] in aliases:
+            refs.add(s['lhs']['l'])
     for bb, si, s in b.stmts():
         if s['k'] == 'assign' and s['rv']['k'] == 'discr' and s['rv']['pl']['l'] in aliases:
             uses.add('match')
@@ -38,6 +70,10 @@ def consumers(b, local):
             uses.add('return')
     for bb, t in b.calls():
         for a in t['args']:
+            if is_place(a) and not a['pl']['p'] and a['pl']['l'] in refs and t['callee'].get('name') in ('is_ok', 'is_err'):
+                nm = t['callee'].get('name')
+                uses.add('match' if bool_test_propagates(b, bb, nm) else 'swallow:' + nm)
+                continue
             if is_place(a) and a['pl']['l'] in aliases and not a['pl']['p']:
                 cp = callee_path(t) or ''
                 nm = t['callee'].get('name')
@@ -47,6 +83,9 @@ def consumers(b, local):
                     uses.add('ok_or')
                 elif nm in ('unwrap', 'expect', 'unwrap_or_default', 'unwrap_unchecked'):
                     uses.add('unwrap')
+                elif nm in ('is_ok', 'is_err') and bool_test_propagates(b, bb, nm):
+                    # `if r.is_err() { return Err(..) }`: the failure is turned into an error for the caller
+                    uses.add('match')
                 elif nm in ('ok', 'unwrap_or', 'is_ok', 'is_err'):
                     uses.add('swallow:' + nm)
                 else:
@@ -117,6 +156,52 @@ def run(ctx, R, tier):
     err_paths(F, R)
     chan(F, R)
     eof(F, R)
+    seek_landing(F, R)
+
+
+def seek_landing(F, R):
+    """`Decoder::seek` may land before the requested frame and returns the index it actually reached (symphonia seeks to
+    packet boundaries).  Every caller in the streaming code must label the next decoded chunk with THAT index: the value
+    stored into `decoder_current_frame_index` after a seek is the seek's own result, on every success path.  A caller that
+    records the requested index instead plays frame[landed + k] where the loaded sound has frame[requested + k]."""
+    from ..paths import describe_rv, pretty_place
+    from ..rules import must_pass
+    SEEK = 'sound::streaming::decoder::Decoder::seek'
+    n = 0
+    for b in F.bodies:
+        if b.krate != 'kira' or not b.path.startswith('sound::streaming::sound::decode_scheduler::') or '{closure' in b.path:
+            continue
+        seeks = [bb for bb, t in b.calls() if (callee_path(t) or '') == SEEK]
+        if not seeks:
+            continue
+        stores = [(bb, describe_rv(b, s['rv'], depth=8, at=bb)) for bb, si, s in b.stmts()
+                  if s['k'] == 'assign' and s['lhs']['p'] and pretty_place(b, s['lhs']).endswith('.decoder_current_frame_index')]
+        for bb, si, st in b.stmts():
+            if st['k'] == 'assign' and st['rv']['k'] == 'agg' and 'decoder_current_frame_index' in (st['rv'].get('fields') or []):
+                i = st['rv']['fields'].index('decoder_current_frame_index')
+                from ..paths import describe as _d
+                stores.append((bb, _d(b, st['rv']['ops'][i], depth=8, at=bb)))
+        for sb in seeks:
+            n += 1
+            good = [bb for bb, d in stores if SEEK + '(' in d and (d.endswith('as Continue.0') or d.endswith('as Ok.0') or 'unwrap' in d)
+                    and b.dominates(sb, bb)]
+            # every path from the seek to a return either records the landing index or propagates the seek's error
+            ok = bool(good)
+            if ok:
+                for p in explore(b):
+                    if p.end != 'return' or sb not in p.blocks:
+                        continue
+                    if set(p.blocks) & set(good):
+                        continue
+                    r = str(p.ret)
+                    if 'from_residual' in r or '::Err(' in r or 'Result::Err' in r:
+                        continue
+                    ok = False
+            R.check(ok, 'B.C18.seek', '%s#%d' % (b.path.split('::')[-1], n),
+                    '%s seeks the decoder but does not record the index the seek actually reached in decoder_current_frame_index '
+                    '(stores: %s): the following chunk is labelled with the wrong start frame' % (b.path, [d[:80] for _, d in stores]),
+                    detail={'caller': b.path, 'recorded': 'result of Decoder::seek'}, where=b.where(sb))
+    R.floor('B.C18.seek', n, 3)
 
 
 def err_paths(F, R):
